@@ -15,6 +15,8 @@ def sh(cmd, timeout=900, cwd=None):
 
 def main():
     src, sid, props = sys.argv[1], sys.argv[2], sys.argv[3:]
+    if not props:                                        # re-run: the properties recorded last time
+        props = json.load(open(os.path.join(src, "meta.json")))["properties"]
     patch = os.path.join(src, "patch.diff")
     demo = None
     for cand in ("demo.cpp", "test.cpp"):
@@ -81,11 +83,12 @@ def main():
             sh("git -C /repo worktree remove --force %s" % wt)
             shutil.rmtree(bd, ignore_errors=True)
     meta["checks"] = results
-    shutil.copy(patch, os.path.join(out, "patch.diff"))
-    if demo:
-        shutil.copy(demo, os.path.join(out, os.path.basename(demo)))
-    if os.path.exists(os.path.join(src, "notes.md")):
-        shutil.copy(os.path.join(src, "notes.md"), os.path.join(out, "notes.md"))
+    if os.path.abspath(src) != os.path.abspath(out):     # (a re-run from seeded/<id>/ itself keeps its files)
+        shutil.copy(patch, os.path.join(out, "patch.diff"))
+        if demo:
+            shutil.copy(demo, os.path.join(out, os.path.basename(demo)))
+        if os.path.exists(os.path.join(src, "notes.md")):
+            shutil.copy(os.path.join(src, "notes.md"), os.path.join(out, "notes.md"))
     json.dump(meta, open(os.path.join(out, "meta.json"), "w"), indent=1)
     print(json.dumps({k: meta[k] for k in ("seed", "applies_to_head", "demo_confirms", "checks") if k in meta}, indent=1))
 
